@@ -252,7 +252,9 @@ func (c *gcase) render(f *gfile, isUserEntry bool) string {
 		}
 	}
 	for _, d := range f.Dyn {
-		fmt.Fprintf(&sb, "__track(%q, import('./%s.js').then((ns) => __probe(%q, \"dyn:%s=\" + (ns.v%s === undefined ? -1 : ns.v%s))));\n", m, d, m, d, c.file(d).Sfx, c.file(d).Sfx)
+		// every name of the namespace is read; its `v` and the number of names are reported
+		fmt.Fprintf(&sb, "__track(%q, import('./%s.js').then((ns) => { for (const k of Object.keys(ns)) void ns[k]; __probe(%q, \"dyn:%s=\" + (ns.v%s === undefined ? -1 : ns.v%s)); __probe(%q, \"dynkeys:%s=\" + Object.keys(ns).length) }));\n",
+			m, d, m, d, c.file(d).Sfx, c.file(d).Sfx, m, d)
 	}
 	if isUserEntry {
 		var peeks, pokes []string
@@ -566,7 +568,7 @@ func (c *gcase) checkRun(run *nodeRun, entryNames []string) []string {
 			continue
 		}
 		m, s := t[0], t[1]
-		if strings.HasPrefix(s, "dyn:") {
+		if strings.HasPrefix(s, "dyn:") || strings.HasPrefix(s, "dynkeys:") {
 			perAsync[m] = append(perAsync[m], s)
 			if _, ended := endAt[m]; !ended {
 				bad = append(bad, fmt.Sprintf("module %s: dynamic import result %q before the end of its body", m, s))
@@ -1343,8 +1345,8 @@ type genCfg struct{ name, text string }
 // genConfigs derives the generator configurations from spec/cfg/LinkGen.quick.cfg: the family is cut into
 // slices (incidence family by shape = k entry points over n modules, re-export chain family, name-collision
 // family), one TLC run each, because TLC computes initial states (one per graph) with a single thread.
-// quick: a seeded slice (one variant per incidence pattern up to k=3, n=3 and k=2, n=4; one sixteenth of the
-// re-export chains; every naming of k=2, n=3 and an eighth of the other namings);
+// quick: a seeded slice (one variant per incidence pattern up to k=3, n=2 and k=2, n=4 and of half of the patterns
+// of k=3, n=3; one sixteenth of the re-export chains; every naming of k=2, n=3 and an eighth of the other namings);
 // thorough: every variant of every pattern up to k=3, n=3 and k=2, n=4, a seeded slice (two variants per
 // pattern) of k=3, n=4, every re-export chain and every naming.
 func genConfigs(r *core.Run) ([]genCfg, error) {
@@ -1392,8 +1394,9 @@ func genConfigs(r *core.Run) ([]genCfg, error) {
 		return mk(fmt.Sprintf("names.%d", half), slice{shapes: "ShapesNone", pick: 1, half: half, chainPick: 9999, chainDiv: 1, namePick: pick})
 	}
 	if !r.Thorough() {
-		return []genCfg{inc("ShapesQuickB", pick, false, 0), chains(pick, 16, 1), chains(pick, 16, 2), inc("ShapesQuickA", pick, false, 1),
-			inc("ShapesQuickA", pick, false, 2), names(pick, 0)}, nil
+		// (k=3 over 3 modules: the half of the patterns chosen by the seed)
+		return []genCfg{inc("ShapesQuickB", pick, false, 0), chains(pick, 16, 1), chains(pick, 16, 2), inc("ShapesQuickA", pick, false, 1+pick%2),
+			names(pick, 0)}, nil
 	}
 	// the big slices first, each spread over two runs
 	out := []genCfg{chains(0, 1, 1), chains(0, 1, 2), inc("S33", 0, true, 1), inc("S33", 0, true, 2), inc("S34", pick, true, 1), inc("S34", pick, true, 2),
@@ -1483,6 +1486,9 @@ func Run(r *core.Run) {
 		configs := []buildConfig{cfgPlain}
 		if r.Thorough() {
 			configs = append(configs, cfgMinify, extraConfigs[i%len(extraConfigs)])
+		} else if v := cases[i].Variant; v == "names" || v == "rxchain" {
+			// the collision renamers differ with and without minification: both, always
+			configs = append(configs, cfgMinify)
 		} else if (i+int(r.Seed))%2 == 0 {
 			configs = append(configs, cfgMinify)
 		} else if (i+int(r.Seed))%5 == 0 {
